@@ -25,8 +25,6 @@ PROPS_MOD = "VncModel.Props.C16"
 EXTRA_TARGETS = ["drv_c16"]
 
 SIZES = [(4, 3), (8, 6), (13, 9), (16, 8), (20, 12), (31, 17), (40, 24), (1, 1), (2, 5), (64, 2)]
-F_SCALED = "newfb-scaled-screens"
-F_LEAK = "sds-iterator-leak"
 
 
 def rect_in(rng, W, H, lo=1):
@@ -110,6 +108,12 @@ class Gen:
         else:            # same size, other depth / other buffer only
             w, h = self.W, self.H
         b = self.B if r.random() < 0.5 else r.choice([1, 2, 4])
+        if r.random() < 0.35:
+            # pointer at / just outside the edge of the area to come (unscaled client's coordinates)
+            c = r.randrange(self.nc)
+            if not self.cl[c]["scaled"]:
+                self.emit("ptr %d %d %d" % (c, max(0, w + r.choice([-1, 0, 0, 1])), max(0, h + r.choice([-1, 0, 0, 1]))))
+                self.states()
         self.emit("newfb %d %d %d %d" % (w, h, b, r.randint(1, 30000)))
         self.resized(w, h, b)
 
@@ -365,18 +369,6 @@ def py_oracle(script, plain, orc):
     return None
 
 
-def leak_only_known(err):
-    """LSan report consisting only of the client iterator the SetDesktopSize case never releases"""
-    if "LeakSanitizer" not in err or "AddressSanitizer:" in err.replace("SUMMARY: AddressSanitizer", ""):
-        return False
-    blocks = re.split(r"\n(?=Direct leak|Indirect leak)", err)
-    blocks = [b for b in blocks if b.startswith(("Direct leak", "Indirect leak"))]
-    if not blocks:
-        # the tail may be truncated; accept when the only frames named are the known ones
-        return "rfbGetClientIterator" in err and "rfbProcessClientNormalMessage" in err
-    return all("rfbGetClientIterator" in b and "rfbProcessClientNormalMessage" in b for b in blocks)
-
-
 def run(ctx):
     h = ctx.harness("c16")
     d = ctx.driver("drv_c16")
@@ -391,7 +383,7 @@ def run(ctx):
         rec = json.load(open(ctx.replay))
         scripts = [("\n".join(rec.get("script", [])) + "\n", "replay")]
     else:
-        n = 700 if ctx.tier == "quick" else 20000
+        n = 1200 if ctx.tier == "quick" else 50000
         for i in range(n):
             scripts.append((gen_script(ctx.rng, ctx.rng.choice([6, 12, 25, 45]), allow_scaled=(i % 3 != 0)), None))
 
@@ -400,27 +392,16 @@ def run(ctx):
         meta = meta_of(script)
         rc, impl, err = ctx.run_lines(h, script)
         f = None
-        leak = False
         if rc != 0:
-            if leak_only_known(err) and meta["sds_success"]:
-                leak = True          # complete output, the report comes at exit
-            else:
-                f = {"kind": "crash", "what": "resize: harness exit %d" % rc, "script": script.splitlines(),
-                     "impl": impl[-12:], "detail": err[-2500:]}
-                if meta["scaled_at_newfb"] and "scale.c" in err:
-                    f["finding"] = F_SCALED
-                return impl, [], [f]
+            f = {"kind": "crash", "what": "resize: harness exit %d" % rc, "script": script.splitlines(),
+                 "impl": impl[-12:], "detail": err[-2500:]}
+            return impl, [], [f]
         out = []
-        if leak:
-            out.append({"kind": "crash", "what": "resize: client iterator leaked by a successful SetDesktopSize",
-                        "script": script.splitlines(), "detail": err[-1500:], "finding": F_LEAK})
         plain, orc = split_oracle(impl)
         o = py_oracle(script, plain, orc)
         if o:
             f = {"kind": "oracle", "what": "C16 resize oracle", "detail": o, "script": script.splitlines(),
                  "impl": impl[-40:]}
-            if meta["scaled_at_newfb"] and ("scaled" in o or "!ss" in o or "!pix" in o):
-                f["finding"] = F_SCALED
         model = []
         if ctx.driver_ok:
             rc2, model, err2 = ctx.run_lines(d, script)
@@ -431,30 +412,22 @@ def run(ctx):
                      "op": ops[i] if i is not None and i < len(ops) else None,
                      "script": script.splitlines(),
                      "impl": plain[max(0, (i or 0) - 1):(i or 0) + 2], "model": model[max(0, (i or 0) - 1):(i or 0) + 2]}
-                if meta["scaled_at_newfb"]:
-                    f["finding"] = F_SCALED
         if f:
             out.append(f)
         return impl, model, out
 
     results = common.pmap(one, scripts)
     seen = set()
-    tagged = {}
     for (script, name), (impl, model, fl) in zip(scripts, results):
         for f in fl:
             if name:
                 f["corpus"] = name
-            fid = f.get("finding")
-            if fid:
-                if fid in tagged:
-                    continue         # one witness per finding
-                tagged[fid] = True
             fails.append(f)
         meta = meta_of(script)
         prev = None
         for l in script.splitlines():
             t = l.split()
-            if not t:
+            if not t or t[0].startswith("#"):
                 continue
             dist["ops"][t[0]] = dist["ops"].get(t[0], 0) + 1
             if t[0] in ("screen",):
@@ -508,7 +481,7 @@ def run(ctx):
         "assumptions": ["the application frees the old buffer only after rfbNewFramebuffer returned and installs a buffer of w*h*bytesPerPixel bytes",
                         "the application converts the cursor's rich source after a depth change (API note at rfbNewFramebuffer)",
                         "copy sources lie inside the current framebuffer",
-                        "model follows the code with fixes/C16-newfb-scaled-screens.diff and fixes/C16-sds-iterator-leak.diff applied"],
+                        "the model follows the code with fixes/C16-newfb-scaled-screens.diff and fixes/C16-sds-iterator-leak.diff (both applied to /repo; witnesses in corpus/C16 replayed first on every run)"],
         "trusted_extra": ["lean/VncModel/Scale/Model.lean (C17) `corr` / `clipReq`: software model of the double arithmetic of rfbScaledCorrection, used only for scaled clients' rectangle geometry in the executable driver"],
     }
 
